@@ -174,3 +174,12 @@ claim(
     "abstract interpretation on arrays of free symbols; linear-form extraction (symbolic derivative) with weight-sum and sign conditions; sibling identity under mirroring",
     "DESIGN.md §5 C22",
 )
+
+claim(
+    "C37",
+    "other",
+    "Decides the RectilinearGrid helpers by abstract interpretation: coord_to_index is interpreted on one representative of every order type of the coordinate relative to the edges and their midpoints of a generic non-uniform axis (exhaustive for lower / upper, which only compare, and for nearest, which only compares distances): lower = last edge <= c, upper = first edge >= c, nearest = closest edge, first on ties; length_to_cell_count; bounds_for_center / bounds_for_anchor over all sizes, anchor positions and order types of the target: (lower, lower+size) with the closest centre / anchor, invalid sizes rejected. On symbolic edges: axis_extent, centers, anchor_coordinate, cell_volume = dx*dy*dz, face_area = product of the transverse widths in their own layout. CFL: uniform f*s/(c*sqrt 3), general f/(c*sqrt(sum 1/dmin^2)), branches agree on equal spacings, config.time_step_duration per grid policy, courant_number = f/sqrt 3. Uniform detection classifies ten representative grids as documented (narrower / wider cells, other axes, tolerance edge); reduce_symmetric keeps the upper half of symmetric axes and rejects asymmetric widths. numpy float rounding is not decided.",
+    TB + "; concrete numpy model on exact rationals (searchsorted, argmin first-on-ties, diff, min, max); order-type exhaustiveness argument for comparison-only helpers",
+    "abstract interpretation with exhaustive order-type enumeration; polynomial identities (with sqrt normalisation) for the formulas; decision table over representative grids for uniform detection",
+    "DESIGN.md §5 C37",
+)
